@@ -1,3 +1,7 @@
 module verif
 
 go 1.21
+
+require golang.org/x/tools v0.17.0
+
+require golang.org/x/mod v0.14.0 // indirect
